@@ -81,7 +81,14 @@ def compareSql (km : KindMap) (q : Option Cy.Query) (bagCols : List Nat) (so su 
         -- ORDER BY + LIMIT may cut inside ties: then any completion of the tie block is valid
         if topCut su then
           match Sql.eval db (stripCut su) [] with
-          | .ok tf => if ro.length == ru.length && bagSub ro (rowsOf bagCols tf) then .agreeBagOnly else .differ rowsStage show_
+          | .ok tf =>
+            -- … but only if the reference semantics agrees that the cut falls inside a tie block (it then refuses the query as
+            -- nondeterministic); when the reference DOES determine the rows, two different bags cannot both be right
+            let referenceDetermines := match q with
+              | some cq => (match Cy.evalKeyed Cy.Quirks.none g cq with | .ok _ => true | .error _ => false)
+              | none => false
+            if referenceDetermines then .differ rowsStage show_
+            else if ro.length == ru.length && bagSub ro (rowsOf bagCols tf) then .agreeBagOnly else .differ rowsStage show_
           | .error _ => .differ rowsStage show_
         else .differ rowsStage show_
       else
